@@ -1,0 +1,46 @@
+//go:build verif
+
+package odt
+
+import "encoding/xml"
+
+// Verification hooks for the bounded-work guards (C02). Add-only: exported wrappers of
+// unexported functions, compiled only with -tags verif; nothing here is used by the library.
+
+// VerifCellSpans returns the spans parseCell gives a cell with these attribute values.
+func VerifCellSpans(colsSpanned, rowsSpanned string) (int, int) {
+	c := NewTableParser(nil).parseCell(tableCellXML{NumberColumnsSpanned: colsSpanned, NumberRowsSpanned: rowsSpanned})
+	return c.ColSpan, c.RowSpan
+}
+
+// VerifColumnRepeat returns how many columns parseTableColumns makes of one
+// <table:table-column> with this number-columns-repeated value.
+func VerifColumnRepeat(repeated string) int {
+	return len(NewTableParser(nil).parseTableColumns([]tableColXML{{NumberRepeated: repeated}}))
+}
+
+// VerifLimitTableGrid exposes limitTableGrid.
+func VerifLimitTableGrid(t *ParsedTable) { limitTableGrid(t) }
+
+// VerifInheritanceChain builds a style resolver for the given styles.xml the way Open does
+// and exposes buildInheritanceChain (base first).
+func VerifInheritanceChain(stylesData []byte, name string) []string {
+	docStyles := &stylesXML{}
+	_ = xml.Unmarshal(stylesData, docStyles)
+	return NewStyleResolver(nil, docStyles).buildInheritanceChain(name)
+}
+
+// VerifParagraphDecode unmarshals one <text:p> element with paragraphXML.UnmarshalXML
+// (decodeInlineContent) and returns the text of every span found, in order.
+func VerifParagraphDecode(data []byte) ([]string, error) {
+	var p paragraphXML
+	err := xml.Unmarshal(data, &p)
+	texts := make([]string, len(p.Spans))
+	for i, s := range p.Spans {
+		texts[i] = s.Text
+	}
+	return texts, err
+}
+
+// VerifMaxInlineDepth exposes the nesting limit of decodeInlineContent.
+func VerifMaxInlineDepth() int { return maxInlineDepth }
